@@ -23,7 +23,7 @@ def build(desc, pool=None):
         if isinstance(x, dict) and "$h" in x:
             return pool[x["$h"]]
         if isinstance(x, dict) and "$imf" in x:
-            return PowerLawIMF(x["$imf"]["mb"], x["$imf"]["a"], N0=x["$imf"]["N0"])
+            return PowerLawIMF(x["$imf"]["mb"], x["$imf"]["a"], N0=x["$imf"]["N0"], ext=x["$imf"].get("ext", 1))
         if isinstance(x, dict) and "$arr" in x:
             return np.array(x["$arr"], dtype=float)
         return x
